@@ -199,6 +199,12 @@ func (s *session[H]) doRequest(
 	}
 
 	h, err := s.processResponses(r)
+	if err == nil && h[0].Height() != req.GetOrigin() {
+		// the range is verified to be adjacent, but it must also start where it was asked to,
+		// otherwise the session ends up with gaps or duplicates in the result
+		err = fmt.Errorf("header/p2p: peer responded with headers starting at height %d instead of %d",
+			h[0].Height(), req.GetOrigin())
+	}
 	if err != nil {
 		span.SetStatus(codes.Error, err.Error())
 		logFn := log.Errorw
